@@ -59,9 +59,9 @@ fn build_h(d: usize, fam: &str, sp: &str, c: f64) -> Vec<Vec<f64>> {
     }
 }
 
-fn starts(d: usize, shift: f64) -> Vec<Vec<f64>> {
+fn starts(d: usize, shift: f64, thorough: bool) -> Vec<Vec<f64>> {
     let mut v: Vec<Vec<f64>> = Vec::new();
-    if d <= 3 {
+    if d <= (if thorough { 5 } else { 3 }) {
         mc::oracle::for_each_tuple(&SIGMA4, d, |t| v.push(t.to_vec()));
     } else {
         for i in 0..d {
@@ -81,12 +81,12 @@ fn starts(d: usize, shift: f64) -> Vec<Vec<f64>> {
     v
 }
 
-pub fn plan(_thorough: bool, seed: u64, jobs: &mut Vec<Job>) {
+pub fn plan(thorough: bool, seed: u64, jobs: &mut Vec<Job>) {
     for d in 1..=12usize {
         for (fi, (fam, sp, c)) in families(d).iter().enumerate() {
             jobs.push(Job::new(
                 format!("quad-d{}-{}-{}-{}", d, fam, sp, c),
-                json!({"kind": "quad", "d": d, "fi": fi, "seed": seed}),
+                json!({"kind": "quad", "d": d, "fi": fi, "seed": seed, "thorough": thorough}),
             ));
         }
     }
@@ -106,11 +106,11 @@ pub fn floors(_t: bool, seed: u64) -> Vec<(&'static str, u64)> {
     v
 }
 
-pub fn bounds(_t: bool) -> Value {
+pub fn bounds(t: bool) -> Value {
     json!({
         "dimension": "1..12",
         "families": "diagonal / Householder-rotated (v = 1..d) / Hadamard-rotated (d = 2,4,8) with linear, log and clustered spectra, cond in {1,10,1e2,1e4}; tridiagonal Toeplitz (2,-1); min(i,j); all normalised to smallest eigenvalue >= 1; d = 1: curvature in {1,10,1e2,1e4} and 2 -+ 2^-k, k = 4,6..16 (unit-step Armijo boundary)",
-        "starts": "d <= 3: all of {0,1,-1,2}^d plus 1e3*ones; d >= 4: e_1..e_d, ones, alternating +-1, 1e3*ones",
+        "starts": format!("d <= {0}: all of {{0,1,-1,2}}^d plus 1e3*ones; d > {0}: e_1..e_d, ones, alternating +-1, 1e3*ones (all shifted by (seed%8)/4)", if t { 5 } else { 3 }),
         "optimum": "x* = 0 and x* = (1,-1,1,..)/16",
         "line_search_order": "SECOND and THIRD",
     })
@@ -122,7 +122,7 @@ pub fn run(job: &Job) {
     let (fam, sp, c) = fams[job.u("fi")].clone();
     let seed = job.params["seed"].as_u64().unwrap_or(0);
     let shift = (seed % 8) as f64 * 0.25;
-    let st = starts(d, shift);
+    let st = starts(d, shift, job.b("thorough"));
     let x0 = st[mc::choose(st.len())].clone();
     let xstar_kind = mc::choose(2);
     let order_third = mc::choose(2) == 0;
@@ -209,11 +209,6 @@ pub fn run(job: &Job) {
     // calibration buckets
     if g0 > 0.0 {
         let ratio = gf / g0;
-        if ratio > 1e-7 && std::env::var("C09_DEBUG").is_ok() {
-            eprintln!("DBG ratio {:e} g0 {:e} gf {:e} it {} {}", ratio, g0, gf, res.iterations, case());
-            let m = fs.len();
-            eprintln!("DBG2 fcalls {} iterates {} last fs {:?} diffs {:?}", *f_calls.borrow(), m, &fs[m.saturating_sub(5)..], fs[m.saturating_sub(6)..].windows(2).map(|w| w[1] - w[0]).collect::<Vec<_>>());
-        }
         mc::count(if ratio <= 1e-12 {
             "quad_reduction<=1e-12"
         } else if ratio <= 1e-9 {
